@@ -1,4 +1,5 @@
 import Pko.Lemmas.C10Store
+import Pko.Lemmas.Watch
 namespace Pko.Props.C10
 open Pko.Kube Pko.Model.Phase Pko.Model.ObjectSet Pko.Model.Converge
 
@@ -23,12 +24,12 @@ def Quiet (w : World) : Prop := w.env = []
 /-- the object step never changes the third-party schedule. -/
 theorem reconcilePhaseObject_env (cfg : Cfg) (ow : Owner) (prev : List Prev) (p : PObj) (w : World) :
     (reconcilePhaseObject cfg ow prev p w).1.env = w.env := by
-  simp only [reconcilePhaseObject]
+  simp only [reconcilePhaseObject_eq]
   split
   · rfl
   · split
     · split <;> rfl
-    · simp only [reconcileObject, reconcileObjectWith]
+    · simp only [reconcileObjectWith]
       split
       · simp [apply_env]
       · split
@@ -63,9 +64,9 @@ theorem object_fixpoint (cfg : Cfg) (ow : Owner) (prev : List Prev) (p : PObj) (
     (reconcilePhaseObject cfg ow prev p w).1.store = w.store ∧
     ∃ o', (reconcilePhaseObject cfg ow prev p w).2 = .actual o' ∧ o' = o := by
   have hck : check cfg.st ow cfg.force o prev p.cp = .skip := by simp [check, ho.ctrl]
-  simp only [reconcilePhaseObject, hr.2, ↓reduceIte, hr.1, Bool.false_eq_true, reconcileObject,
+  simp only [reconcilePhaseObject_eq, hr.2, ↓reduceIte, hr.1, Bool.false_eq_true,
     seen_some w _ o hg, reconcileObjectWith, hck]
-  simp only [reduceCtorEq, ↓reduceIte, ho.ctrl]
+  simp only [reduceCtorEq, ↓reduceIte, ho.ctrl, watch_apply_store, watch_apply_snd, watch_store]
   have ha := apply_store w (keyOf cfg ow p) (appliedFor cfg ow p o.owners) hq
   rw [apply_settled cfg ow p w.store o hg ho] at ha
   exact ⟨ha.1, _, rfl, ha.2⟩
@@ -85,8 +86,8 @@ theorem object_repair (cfg : Cfg) (ow : Owner) (prev : List Prev) (p : PObj) (w 
     cases hst : cfg.st with
     | native =>
       have hns : ¬ (ow.ns ≠ "" ∧ desiredNs ow p ≠ ow.ns) := fun h => hr.2 ⟨hst, h⟩
-      simp only [reconcilePhaseObject, hst, true_and, hns, ↓reduceIte, hr.1, Bool.false_eq_true, reconcileObject,
-        seen_none w _ hnone, reconcileObjectWith]
+      simp only [reconcilePhaseObject_eq, hst, true_and, hns, ↓reduceIte, hr.1, Bool.false_eq_true,
+        seen_none w _ hnone, reconcileObjectWith, watch_apply_store, watch_apply_snd, watch_store]
       have ha := apply_store w (keyOf cfg ow p) (appliedFor cfg ow p [ow.ref true]) hq
       obtain ⟨h1, h2, h3, h4, h5, h6, h7, h8, h9⟩ := apply_none w.store (keyOf cfg ow p)
         (appliedFor cfg ow p [ow.ref true]) hnone
@@ -102,8 +103,8 @@ theorem object_repair (cfg : Cfg) (ow : Owner) (prev : List Prev) (p : PObj) (w 
               uids := by simp only [UidsDistinct]; rw [h2]; simp [appliedFor]
               alive := h8 }
     | annotation =>
-      simp only [reconcilePhaseObject, hst, reduceCtorEq, false_and, ↓reduceIte, hr.1, Bool.false_eq_true, reconcileObject,
-        seen_none w _ hnone, reconcileObjectWith]
+      simp only [reconcilePhaseObject_eq, hst, reduceCtorEq, false_and, ↓reduceIte, hr.1, Bool.false_eq_true,
+        seen_none w _ hnone, reconcileObjectWith, watch_apply_store, watch_apply_snd, watch_store]
       have ha := apply_store w (keyOf cfg ow p) (appliedFor cfg ow p []) hq
       obtain ⟨h1, h2, h3, h4, h5, h6, h7, h8, h9⟩ := apply_none w.store (keyOf cfg ow p)
         (appliedFor cfg ow p []) hnone
@@ -122,9 +123,9 @@ theorem object_repair (cfg : Cfg) (ow : Owner) (prev : List Prev) (p : PObj) (w 
               alive := h8 }
   · -- present and ours: re-apply the desired state
     have hck : check cfg.st ow cfg.force cur prev p.cp = .skip := by simp [check, hctrl]
-    simp only [reconcilePhaseObject, hr.2, ↓reduceIte, hr.1, Bool.false_eq_true, reconcileObject,
+    simp only [reconcilePhaseObject_eq, hr.2, ↓reduceIte, hr.1, Bool.false_eq_true,
       seen_some w _ cur hg, reconcileObjectWith, hck]
-    simp only [reduceCtorEq, ↓reduceIte, hctrl]
+    simp only [reduceCtorEq, ↓reduceIte, hctrl, watch_apply_store, watch_apply_snd, watch_store]
     have ha := apply_store w (keyOf cfg ow p) (appliedFor cfg ow p cur.owners) hq
     obtain ⟨h1, h2, h3, h4, h5, h6, h7, h8, _, _, h9⟩ := apply_some w.store (keyOf cfg ow p)
       (appliedFor cfg ow p cur.owners) cur hg halive
